@@ -171,6 +171,29 @@ def build():
                   'if len(sets) > 1:': dict(assigns={'rewritten_set': 'Opt[Obj]'}, modifies=['Env.type_rewrites', 'RWD.m', '$alloc', 'Ctx.anchors'],
                         ensures=['is_none(rewritten_set) == (len(sets) == 0)', OWN_BLOCK])},
         hints={'ext_funcs': XG, 'var_types': {'sets': 'Seq[Obj]'}})
+
+    # F5c  try_type_rewrite, union / intersection types: every component gets its rewrite registered (a read through the compound type ranges over the
+    #      components' rewrites), and the compound key itself is registered
+    w.refclass('TColl', {}); w.ufunc('UNI', ['TypeT'], 'Seq[TypeT]'); w.ufunc('INTER', ['TypeT'], 'Seq[TypeT]'); w.ufunc('TCOLL', ['TColl'], 'Seq[TypeT]')
+    w.ext_methods['TypeT.get_union_of'] = dict(params={'schema': 'Obj'}, returns='TColl', ensures=['TCOLL(result) == UNI(self)'])
+    w.ext_methods['TypeT.get_intersection_of'] = dict(params={'schema': 'Obj'}, returns='TColl', ensures=['TCOLL(result) == INTER(self)'])
+    w.ext_methods['TColl.objects'] = dict(params={'schema': 'Obj'}, returns='Seq[TypeT]', returns_expr='TCOLL(self)')
+    COMPS_PLAIN = 'forall(0, len(UNI(stype)), lambda k: not ISCOMP(seq_get(UNI(stype), k))) and forall(0, len(INTER(stype)), lambda k: not ISCOMP(seq_get(INTER(stype), k)))'
+    ALLREG = lambda hi: 'forall(0, %s, lambda k: (seq_get(objs, k), skip_subtypes) in ctx.env.type_rewrites)' % hi
+    w.contract(POL, 'try_type_rewrite', view='compound', params={'stype': 'TypeT', 'skip_subtypes': 'bool', 'ctx': 'Ctx'}, returns='none',
+        requires=['ISCOMP(stype)', COMPS_PLAIN],
+        modifies=['Env.type_rewrites', 'RWD.m', '$alloc', 'Ctx.anchors', 'Ctx.partial_path_prefix', 'Ctx.path_scope', 'Ctx.expr_exposed', 'StmtT.where'],
+        ensures=['(stype, skip_subtypes) in ctx.env.type_rewrites',
+                 # `objs` (a local) is the list of components: union members followed by intersection members -- every one of them is registered
+                 ALLREG('len(objs)'), 'len(objs) == len(UNI(stype)) + len(INTER(stype))',
+                 'forall(0, len(UNI(stype)), lambda k: seq_get(objs, k) == seq_get(UNI(stype), k))',
+                 'forall(0, len(INTER(stype)), lambda k: seq_get(objs, len(UNI(stype)) + k) == seq_get(INTER(stype), k))'],
+        raises={'QueryError': {}},
+        loops={0: dict(fingerprint='for obj in objs', index='i', invariant=['(stype, skip_subtypes) in ctx.env.type_rewrites', ALLREG('i'),
+                       'len(objs) == len(UNI(stype)) + len(INTER(stype))',
+                       'forall(0, len(UNI(stype)), lambda k: seq_get(objs, k) == seq_get(UNI(stype), k))',
+                       'forall(0, len(INTER(stype)), lambda k: seq_get(objs, len(UNI(stype)) + k) == seq_get(INTER(stype), k))'])},
+        hints={'var_types': {'objs': 'Seq[TypeT]'}, 'callee_views': {'try_type_rewrite': None}})
     return w
 
 # ---------------------------------------------------------------------------------------------------------------------
